@@ -338,6 +338,32 @@ PROGRAM_RULES = [
      "class R0 { public int x = 1; public constructor() -> R0 = default; public function m() -> void { x++; } }"),
     ("final-field:inherited-in-derived-ctor", "class B0 { public final int x; public constructor() -> B0 { this.x = 1; return this; } } class R0 extends B0 { public constructor() -> R0 { super(); this.x = 2; return this; } }",
      "class B0 { public int x; public constructor() -> B0 { this.x = 1; return this; } } class R0 extends B0 { public constructor() -> R0 { super(); this.x = 2; return this; } }"),
+    ("final-field:for-update-in-ctor", "class R0 { public final int x; public constructor() -> R0 { for (int i = 0; i < 3; this.x = i) { i = i + 1; } return this; } }",
+     "class R0 { public final int x; public constructor() -> R0 { this.x = 0; for (int i = 0; i < 3; i = i + 1) { } return this; } }"),
+    ("final-field:for-init-in-ctor", "class R0 { public final int x; public constructor() -> R0 { for (this.x = 0; false; this.x = 1) { } return this; } }",
+     "class R0 { public final int x; public constructor() -> R0 { this.x = 0; return this; } }"),
+    ("final-field:while-body-in-ctor", "class R0 { public final int x; public constructor() -> R0 { int k = 0; while (k < 2) { this.x = k; k = k + 1; } return this; } }",
+     "class R0 { public final int x; public constructor() -> R0 { int k = 0; while (k < 2) { k = k + 1; } this.x = k; return this; } }"),
+    ("final-field:for-body-in-ctor", "class R0 { public final int x; public constructor() -> R0 { for (int i = 0; i < 2; i = i + 1) { this.x = i; } return this; } }",
+     "class R0 { public final int x; public constructor() -> R0 { for (int i = 0; i < 2; i = i + 1) { } this.x = 2; return this; } }"),
+    ("final-field:nested-block-in-ctor", "class R0 { public final int x; public constructor() -> R0 { { this.x = 1; } return this; } }",
+     "class R0 { public final int x; public constructor() -> R0 { this.x = 1; return this; } }"),
+    ("final-field:bare-for-update-in-ctor", "class R0 { public final int x; public constructor() -> R0 { for (int i = 0; i < 3; x = i) { i = i + 1; } return this; } }",
+     "class R0 { public final int x; public constructor() -> R0 { x = 0; return this; } }"),
+    ("private:field-write-in-subclass", "class B0 { private int p; public constructor() -> B0 = default; } class R0 extends B0 { public constructor() -> R0 { super(); return this; } public function m() -> void { this.p = 1; } }",
+     "class B0 { protected int p; public constructor() -> B0 = default; } class R0 extends B0 { public constructor() -> R0 { super(); return this; } public function m() -> void { this.p = 1; } }"),
+    ("private:bare-field-write-in-subclass", "class B0 { private int p; public constructor() -> B0 = default; } class R0 extends B0 { public constructor() -> R0 { super(); return this; } public function m() -> void { p = 1; } }",
+     "class B0 { protected int p; public constructor() -> B0 = default; } class R0 extends B0 { public constructor() -> R0 { super(); return this; } public function m() -> void { p = 1; } }"),
+    ("private:field-write-via-subclass-instance", "class B0 { private int p; public constructor() -> B0 = default; } class R0 extends B0 { public constructor() -> R0 { super(); return this; } public function m(R0 o) -> void { o.p = 1; } }",
+     "class B0 { protected int p; public constructor() -> B0 = default; } class R0 extends B0 { public constructor() -> R0 { super(); return this; } public function m(R0 o) -> void { o.p = 1; } }"),
+    ("private:field-write-in-subclass-ctor", "class B0 { private int p; public constructor() -> B0 = default; } class R0 extends B0 { public constructor() -> R0 { super(); this.p = 2; return this; } }",
+     "class B0 { protected int p; public constructor() -> B0 = default; } class R0 extends B0 { public constructor() -> R0 { super(); this.p = 2; return this; } }"),
+    ("private:field-postfix-in-subclass", "class B0 { private int p; public constructor() -> B0 = default; } class R0 extends B0 { public constructor() -> R0 { super(); return this; } public function m() -> void { p++; } }",
+     "class B0 { protected int p; public constructor() -> B0 = default; } class R0 extends B0 { public constructor() -> R0 { super(); return this; } public function m() -> void { p++; } }"),
+    ("private:static-write-in-subclass", "class B0 { private static int sp = 0; public constructor() -> B0 = default; } class R0 extends B0 { public constructor() -> R0 { super(); return this; } public function m() -> void { R0.sp = 1; } }",
+     "class B0 { protected static int sp = 0; public constructor() -> B0 = default; } class R0 extends B0 { public constructor() -> R0 { super(); return this; } public function m() -> void { R0.sp = 1; } }"),
+    ("protected:field-write-from-unrelated", "class B0 { protected int p; public constructor() -> B0 = default; } class R0 { public constructor() -> R0 = default; public function m(B0 b) -> void { b.p = 3; } }",
+     "class B0 { public int p; public constructor() -> B0 = default; } class R0 { public constructor() -> R0 = default; public function m(B0 b) -> void { b.p = 3; } }"),
     ("final-static:uninit", "class R0 { public static final int x; public constructor() -> R0 = default; }", "class R0 { public static final int x = 1; public constructor() -> R0 = default; }"),
     ("private:field-in-subclass", "class B0 { private int p; public constructor() -> B0 = default; } class R0 extends B0 { public constructor() -> R0 { super(); return this; } public function m() -> int { return this.p; } }",
      "class B0 { protected int p; public constructor() -> B0 = default; } class R0 extends B0 { public constructor() -> R0 { super(); return this; } public function m() -> int { return this.p; } }"),
